@@ -187,10 +187,43 @@ fn cfg_args(single: bool, read_only: bool) -> Vec<&'static str> {
 }
 
 /// one sequence against a fresh server. Returns (verdict clause or None, detail)
-fn run_sequence(single: bool, read_only: bool, seq: &[(usize, bool)], alpha: &[(String, Vec<u8>)]) -> Result<Option<(String, String)>, String> {
+fn run_sequence(single: bool, read_only: bool, seq: &[(usize, bool)], alpha: &[(String, Vec<u8>)], after_transfer: bool) -> Result<Option<(String, String)>, String> {
     let mut p = spawn_tftpd(&cfg_args(single, read_only), false)?;
     let s1 = udp_client(false);
     let s2 = udp_client(false);
+    if after_transfer {
+        // history: the first source completes an ordinary download first, so the hostile datagrams come from an
+        // endpoint that HAS owned a (finished) transfer
+        let _ = s1.set_read_timeout(Some(BACKSTOP));
+        let _ = s1.send_to(&rc::request(false, b"probe.bin", &[]), p.addr);
+        let mut buf = vec![0u8; 2048];
+        let mut expect = 1u16;
+        loop {
+            match s1.recv_from(&mut buf) {
+                Err(_) => return Err("the preparatory download got no answer".into()),
+                Ok((n, from)) => {
+                    if let Ok(RPacket::Data { block, data }) = rc::decode(&buf[..n]) {
+                        if block == expect {
+                            let _ = s1.send_to(&rc::ack(block), from);
+                            expect += 1;
+                            if data.len() < 512 {
+                                break;
+                            }
+                        }
+                    } else {
+                        return Err(format!("the preparatory download was answered with {}", rc::describe(&buf[..n])));
+                    }
+                }
+            }
+        }
+        // wait until the transfer thread has ended (only the listener thread is left)
+        let t0 = Instant::now();
+        let status = format!("/proc/{}/status", p.child.id());
+        let threads = || std::fs::read_to_string(&status).ok().and_then(|s| s.lines().find_map(|l| l.strip_prefix("Threads:").and_then(|v| v.trim().parse::<usize>().ok()))).unwrap_or(1);
+        while threads() > 1 && t0.elapsed() < Duration::from_secs(1) {
+            std::thread::sleep(Duration::from_micros(200));
+        }
+    }
     for (i, other_source) in seq {
         let s = if *other_source { &s2 } else { &s1 };
         let _ = s.send_to(&alpha[*i].1, p.addr);
@@ -223,6 +256,7 @@ pub fn cell(spec: &Value) -> Value {
     let lo = spec["lo"].as_u64().unwrap() as usize;
     let hi = (spec["hi"].as_u64().unwrap() as usize).min(alpha.len());
     let len2 = spec["len2"].as_bool().unwrap_or(false);
+    let after = spec["after_transfer"].as_bool().unwrap_or(false);
     let mut seqs: Vec<Vec<(usize, bool)>> = vec![];
     for i in lo..hi {
         if !len2 {
@@ -236,7 +270,7 @@ pub fn cell(spec: &Value) -> Value {
     }
     let mut outcomes: std::collections::BTreeSet<u64> = Default::default();
     for seq in seqs {
-        let r = run_sequence(single, read_only, &seq, &alpha);
+        let r = run_sequence(single, read_only, &seq, &alpha, after);
         c.executions += 1;
         c.states += 1;
         c.transitions += seq.len() as u64 + 1;
@@ -253,8 +287,8 @@ pub fn cell(spec: &Value) -> Value {
                     property: "C05".into(),
                     clause,
                     facts: facts(&[("single", json!(single))]),
-                    what: format!("[{}{}] after {:?}: {}", if single { "single-port" } else { "multi-port" }, if read_only { ",read-only" } else { "" }, names, detail),
-                    replay: json!({"engine": "e2_c05", "single": single, "read_only": read_only, "seq": seq.iter().map(|(i, o)| json!([i, o])).collect::<Vec<_>>(), "names": names}),
+                    what: format!("[{}{}] after {}{:?}: {}", if single { "single-port" } else { "multi-port" }, if read_only { ",read-only" } else { "" }, if after { "a completed download by the same endpoint, then " } else { "" }, names, detail),
+                    replay: json!({"engine": "e2_c05", "single": single, "read_only": read_only, "after_transfer": after, "seq": seq.iter().map(|(i, o)| json!([i, o])).collect::<Vec<_>>(), "names": names}),
                     weight: seq.len() as u64 * 1000 + seq.iter().map(|x| x.0 as u64).sum::<u64>(),
                 });
             }
@@ -283,6 +317,8 @@ pub fn check(tier: Tier) -> Outcome {
             let mut lo = 0;
             while lo < n_alpha {
                 cells.push(json!({"single": single, "read_only": read_only, "lo": lo, "hi": lo + step, "len2": false}));
+                // the same datagrams from an endpoint that has just completed a transfer
+                cells.push(json!({"single": single, "read_only": read_only, "lo": lo, "hi": lo + step, "len2": false, "after_transfer": true}));
                 lo += step;
             }
             if tier == Tier::Thorough {
@@ -296,7 +332,7 @@ pub fn check(tier: Tier) -> Outcome {
     let res = run_cells("c05", cells, &crate::pool_opts(tier));
     let mut out = Outcome::new("C05", "model_checking");
     out.absorb(res, n);
-    out.rule = format!("hostile alphabet of {n_alpha} datagrams (empty, 1 byte, opcodes 0..8 and 0xFFFF with empty / short / 65505-byte tails, requests without NULs, dangling option names and values, non-UTF-8 and empty names, 500 options, non-numeric / negative / signed / hex / huge option values, every boundary value 0,1,7,8,65464,65465,2^16,2^31,2^32,2^63,2^64-1,2^64 for each of the four options in RRQ and WRQ, DATA/ACK/OACK/ERROR to the listening port, directory / missing-directory / traversal names). All sequences of length 1{} x {{multi-port, single-port}} x {{writable, read-only}}, each against a FRESH tftpd process built from /repo. After the sequence the canonical probe (plain RRQ of a 3-block file, completed) must return the right bytes and the process must still be alive. Every sequence is a distinct non-trivial case. states = sequences, transitions = datagrams + probe.", if tier == Tier::Thorough { " and 2 (second datagram from the same and from a different source)" } else { "" });
+    out.rule = format!("hostile alphabet of {n_alpha} datagrams (empty, 1 byte, opcodes 0..8 and 0xFFFF with empty / short / 65505-byte tails, requests without NULs, dangling option names and values, non-UTF-8 and empty names, 500 options, non-numeric / negative / signed / hex / huge option values, every boundary value 0,1,7,8,65464,65465,2^16,2^31,2^32,2^63,2^64-1,2^64 for each of the four options in RRQ and WRQ, DATA/ACK/OACK/ERROR to the listening port, directory / missing-directory / traversal names). All sequences of length 1 (also issued by an endpoint that has just completed a download){} x {{multi-port, single-port}} x {{writable, read-only}}, each against a FRESH tftpd process built from /repo. After the sequence the canonical probe (plain RRQ of a 3-block file, completed) must return the right bytes and the process must still be alive. Every sequence is a distinct non-trivial case. states = sequences, transitions = datagrams + probe.", if tier == Tier::Thorough { " and 2 (second datagram from the same and from a different source)" } else { "" });
     out.assumptions = vec!["'wedged' is only reported if the probe fails twice in a row with the process alive".into(), "byte strings outside the structured alphabet are C10's business (decoder totality)".into()];
     out
 }
@@ -304,7 +340,7 @@ pub fn check(tier: Tier) -> Outcome {
 pub fn replay(v: &Value) -> String {
     let alpha = hostile_alphabet();
     let seq: Vec<(usize, bool)> = v["seq"].as_array().unwrap().iter().map(|p| (p[0].as_u64().unwrap() as usize, p[1].as_bool().unwrap())).collect();
-    let r = run_sequence(v["single"].as_bool().unwrap(), v["read_only"].as_bool().unwrap(), &seq, &alpha);
+    let r = run_sequence(v["single"].as_bool().unwrap(), v["read_only"].as_bool().unwrap(), &seq, &alpha, v["after_transfer"].as_bool().unwrap_or(false));
     rm_rf(&format!("{}/c05", scratch_root()));
     format!("sequence {:?} -> {:?}", v["names"], r)
 }
